@@ -23,14 +23,15 @@ theorem prepareX_stash_nil {x : Exts} (hfc : x.fencedCode = false) {cfg : Pipeli
     exact h.2.symm
 
 /-- **without fenced_code the HTML stash of `treeX` holds entity references only** -/
-theorem treeX_allEnt (x : Exts) (hfc : x.fencedCode = false) (cfg : Pipeline.Cfg) (src : Str) (u : Node)
+theorem treeX_allEnt' (x : Exts) (cfg : Pipeline.Cfg) (src : Str)
+    (hst : ∀ text stash, prepareX x cfg src = .ok (text, stash) → stash = []) (u : Node)
     (html : List Str) (h : treeX x cfg src = .ok u html) : AllEnt html := by
   unfold treeX at h
   split at h
   · cases h
   · cases h
   · rename_i text stash hprep
-    have hs := prepareX_stash_nil hfc hprep
+    have hs := hst _ _ hprep
     subst hs
     split at h
     · cases h
@@ -57,6 +58,10 @@ theorem treeX_allEnt (x : Exts) (hfc : x.fencedCode = false) (cfg : Pipeline.Cfg
                 · cases h'
                 · exact h'
 
+theorem treeX_allEnt (x : Exts) (hfc : x.fencedCode = false) (cfg : Pipeline.Cfg) (src : Str) (u : Node)
+    (html : List Str) (h : treeX x cfg src = .ok u html) : AllEnt html :=
+  treeX_allEnt' x cfg src (fun _ _ e => prepareX_stash_nil hfc e) u html h
+
 theorem allKids_of_NI {qt : Tag → List (Str × Str) → Bool} {u : Node} (h : NI qt u) : allKids qt u.children = true := by
   have := h
   unfold NI at this
@@ -65,8 +70,9 @@ theorem allKids_of_NI {qt : Tag → List (Str × Str) → Bool} {u : Node} (h : 
 
 /-- **`convertX` on a `<`-free source**, given the well-formedness of the tree: the output reads back inside the
     vocabulary of the enabled extensions -/
-theorem convertX_reads (x : Exts) (hal : x.attrList = false) (hfc : x.fencedCode = false) (cfg : Pipeline.Cfg)
-    (src out : Str)
+theorem convertX_reads_named (x : Exts) (cfg : Pipeline.Cfg)
+    (src out : Str) (hst : ∀ text stash, prepareX x cfg src = .ok (text, stash) → stash = [])
+    (hnames : ∀ u html, treeX x cfg src = .ok u html → NI VocabXWF.keysNamed u)
     (hwf : ∀ u html, treeX x cfg src = .ok u html → VocabXWF.WF u ∧ u.tag = .name "div".toList ∧ u.attrs = [])
     (hamp : ∀ u html, treeX x cfg src = .ok u html → contains (inner cfg.fmt u) Post.ampSubstitute = false)
     (hc : convertX x cfg src = .ok out) :
@@ -87,7 +93,7 @@ theorem convertX_reads (x : Exts) (hal : x.attrList = false) (hfc : x.fencedCode
         · rename_i u html ht
           obtain ⟨hw, htag, hattrs⟩ := hwf u html ht
           have hq := treeX_NI x cfg src u html ht
-          have hn := VocabXWF.keysNamed_of_qtX x hal hq
+          have hn := hnames u html ht
           have hgn := VocabXWF.gn_of x u hq hn hw
           have hk : GNL u.children = true := by
             obtain ⟨tag, attrs, text, ta, children, tail, tla⟩ := u
@@ -98,15 +104,16 @@ theorem convertX_reads (x : Exts) (hal : x.attrList = false) (hfc : x.fencedCode
             rw [← qtX_eq]; exact allKids_of_NI hq
           have hd : C14X.rootDiv u = true := by simp [C14X.rootDiv, htag, hattrs]
           obtain ⟨out', forest, h1, h2, h3⟩ :=
-            finishX_reads x cfg (treeX_allEnt x hfc cfg src u html ht) u hd hk hqk (hamp u html ht)
+            finishX_reads x cfg (treeX_allEnt' x cfg src hst u html ht) u hd hk hqk (hamp u html ht)
           rw [h1] at hc
           simp only [Pipeline.Outcome.ok.injEq] at hc
           subst hc
           exact ⟨forest, h2, h3⟩
 
 /-- the same without any hypothesis on the ampersand substitute -/
-theorem convertX_shape (x : Exts) (hal : x.attrList = false) (hfc : x.fencedCode = false) (cfg : Pipeline.Cfg)
-    (src out : Str)
+theorem convertX_shape_named (x : Exts) (cfg : Pipeline.Cfg)
+    (src out : Str) (hst : ∀ text stash, prepareX x cfg src = .ok (text, stash) → stash = [])
+    (hnames : ∀ u html, treeX x cfg src = .ok u html → NI VocabXWF.keysNamed u)
     (hwf : ∀ u html, treeX x cfg src = .ok u html → VocabXWF.WF u ∧ u.tag = .name "div".toList ∧ u.attrs = [])
     (hc : convertX x cfg src = .ok out) :
     ∃ X forest, out = strip (Post.ampSub X) ∧ readForest cfg.fmt X = some forest ∧
@@ -127,7 +134,7 @@ theorem convertX_shape (x : Exts) (hal : x.attrList = false) (hfc : x.fencedCode
         · rename_i u html ht
           obtain ⟨hw, htag, hattrs⟩ := hwf u html ht
           have hq := treeX_NI x cfg src u html ht
-          have hn := VocabXWF.keysNamed_of_qtX x hal hq
+          have hn := hnames u html ht
           have hgn := VocabXWF.gn_of x u hq hn hw
           have hk : GNL u.children = true := by
             obtain ⟨tag, attrs, text, ta, children, tail, tla⟩ := u
@@ -138,10 +145,29 @@ theorem convertX_shape (x : Exts) (hal : x.attrList = false) (hfc : x.fencedCode
             rw [← qtX_eq]; exact allKids_of_NI hq
           have hd : C14X.rootDiv u = true := by simp [C14X.rootDiv, htag, hattrs]
           obtain ⟨X, forest, h1, h2, h3⟩ :=
-            finishX_shape x cfg (treeX_allEnt x hfc cfg src u html ht) u hd hk hqk
+            finishX_shape x cfg (treeX_allEnt' x cfg src hst u html ht) u hd hk hqk
           rw [h1] at hc
           simp only [Pipeline.Outcome.ok.injEq] at hc
           subst hc
           exact ⟨X, forest, rfl, h2, h3⟩
+
+/-- without attr_list the names hypothesis holds -/
+theorem convertX_reads (x : Exts) (hal : x.attrList = false) (hfc : x.fencedCode = false) (cfg : Pipeline.Cfg)
+    (src out : Str)
+    (hwf : ∀ u html, treeX x cfg src = .ok u html → VocabXWF.WF u ∧ u.tag = .name "div".toList ∧ u.attrs = [])
+    (hamp : ∀ u html, treeX x cfg src = .ok u html → contains (inner cfg.fmt u) Post.ampSubstitute = false)
+    (hc : convertX x cfg src = .ok out) :
+    ∃ forest, readForest cfg.fmt out = some forest ∧ RXL (tagOkX x) (keyOkX x) forest = true :=
+  convertX_reads_named x cfg src out (fun _ _ e => prepareX_stash_nil hfc e)
+    (fun u html ht => VocabXWF.keysNamed_of_qtX x hal (treeX_NI x cfg src u html ht)) hwf hamp hc
+
+theorem convertX_shape (x : Exts) (hal : x.attrList = false) (hfc : x.fencedCode = false) (cfg : Pipeline.Cfg)
+    (src out : Str)
+    (hwf : ∀ u html, treeX x cfg src = .ok u html → VocabXWF.WF u ∧ u.tag = .name "div".toList ∧ u.attrs = [])
+    (hc : convertX x cfg src = .ok out) :
+    ∃ X forest, out = strip (Post.ampSub X) ∧ readForest cfg.fmt X = some forest ∧
+      RXL (tagOkX x) (keyOkX x) forest = true :=
+  convertX_shape_named x cfg src out (fun _ _ e => prepareX_stash_nil hfc e)
+    (fun u html ht => VocabXWF.keysNamed_of_qtX x hal (treeX_NI x cfg src u html ht)) hwf hc
 
 end MdVerif.VocabXOut
